@@ -44,6 +44,9 @@ CHECKS = {
  'C18': dict(cat='translation_validation', engine='irsym+x86sym', technique='z3 floating-point theory with congruence abstraction of FP operations: (a) real emulator float kernels (LLVM IR) vs IEEE-with-flush reference, (b) emitted SSE/AVX machine code of float programs vs the emulation oracle on every feasible path under the MXCSR the code installs',
              text='Bit equality for finite inputs, NaN-ness for NaN, either zero for min/max of zeros; all bit patterns.',
              note='RNE at entry; quick tier does not claim machine-code bit equality for mul/div/sqrt/float->int (FP queries not decided in budget); x86 FTZ boundary class is a recorded known finding.', ref='DESIGN.md#c18'),
+ 'C12': dict(cat='translation_validation', engine='x86sym', technique='assemble the returned listing with GNU as, decode listing bytes and emitted bytes (objdump), compare instruction by instruction modulo alignment padding; pairs whose decodings differ are executed symbolically from one fully symbolic machine state and the successor states compared by z3',
+             text='Same instruction sequence (mnemonics, registers, memory operands, immediates, branch destinations as instruction indices) for every program of the family on sse/avx/mmx; a listing the assembler rejects is a violation.',
+             note='64-bit x86 only (no cross assemblers for NEON/MIPS/PowerPC in the image); padding nops ignored on both sides.', ref='DESIGN.md#c12'),
 }
 
 NOT_APPLICABLE = {
